@@ -11,7 +11,8 @@ RULE = ("results of all seven result types (arp, tcp, icmp/udp, socks, elastic, 
         "server maps (elastic) and reflectively filled docker Info/Version structs; all 256 one-byte strings and boundary "
         "two/three-byte strings through both escapers; JSON texts (valid and damaged) through encoding/json as the decoder "
         "tie; logger histories (closed / cancelled after k / with flush ticks) and unique-logger histories with random "
-        "repetition patterns; non-trivial = a result/string that is actually encoded, a text Go accepts, a history with at "
+        "repetition patterns; one big unique-logger history (the 524288 addresses of 10.0.0.0/13, each seen three times "
+        "interleaved) judged on the implementation alone; non-trivial = a result/string that is actually encoded, a text Go accepts, a history with at "
         "least one result (uniq: with a repeated ID); distinct by generator string")
 
 CODES = {1: "MarshalJSON bytes differ from the model's enc_record", 2: "the bytes do not decode to the sanitized values",
@@ -138,6 +139,10 @@ def describe(o):
     elif o["t"] == "dec":
         d["text"] = bytes.fromhex(o.get("txt", ""))[:300].decode("utf-8", "backslashreplace")
         d["go_accepts"] = o.get("go_ok", False)
+    elif o["t"] == "big":
+        d["history"] = ("%s distinct hosts 10.0.0.0 upwards, each seen three times interleaved (i, i-1, i-7), through the real "
+                        "unique logger" % o["gen"].split(":")[1])
+        d["minimal_history"] = o.get("replay_gen")
     elif o["t"] == "live":
         d["results"] = len(o.get("rs") or [])
         d["stdout"] = b"".join(bytes.fromhex(x) for x in o.get("writes") or [])[:600].decode("utf-8", "backslashreplace")
@@ -163,7 +168,8 @@ def report(ctx, o, why):
         ctx.more_findings = getattr(ctx, "more_findings", 0) + 1
         return
     tag = re.sub(r"\W+", "-", o["gen"])[:60]
-    path = ctx.write_replay(tag, {"property": "C14", "what": why, "input": {"gen": o["gen"]}, "observed": describe(o),
+    path = ctx.write_replay(tag, {"property": "C14", "what": why, "input": {"gen": o.get("replay_gen") or o["gen"]},
+                                  "found_by": o["gen"], "observed": describe(o),
                                   "replay_cmd": "bin/check C14 --replay <this file>"})
     ctx.findings.append({"key": key_of(o), "what": why, "replay": path})
 
@@ -192,9 +198,9 @@ def run(ctx):
     rows = []
     if ctx.harness_build("c14"):
         if quick:
-            args = ["-seed", ctx.seed, "-n", 2000, "-hist", 200, "-dec", 600, "-str", 800]
+            args = ["-seed", ctx.seed, "-n", 2000, "-hist", 200, "-dec", 600, "-str", 800, "-big", 524288]
         else:
-            args = ["-seed", ctx.seed, "-n", 30000, "-hist", 2500, "-dec", 6000, "-str", 6000, "-pairs"]
+            args = ["-seed", ctx.seed, "-n", 30000, "-hist", 2500, "-dec", 6000, "-str", 6000, "-pairs", "-big", 2097152]
         rows = run_harness(ctx, "cases.jsonl", args, timeout=3000)
     skipped = [o for o in rows if o["t"] == "skip"]
     rows = [o for o in rows if o["t"] != "skip"]
@@ -203,7 +209,7 @@ def run(ctx):
                            "(the implementation passes on another number of results than ID() predicts)", skipped[0]["gen"]))
     for o in rows:
         sample = None
-        if o["t"] in ("rec", "log", "uniq", "live"):
+        if o["t"] in ("rec", "log", "uniq", "live", "big"):
             sample = describe(o)
         ctx.count(key_of(o) if o["t"] != "rec" else "rec:" + KINDS[o.get("kind", 0)], o["gen"], nontrivial=bool(o.get("nontrivial")),
                   sample=sample)
@@ -213,6 +219,7 @@ def run(ctx):
     if stricter:
         ctx.info.append("%d damaged texts with raw invalid UTF-8 inside a string are accepted by encoding/json (it substitutes "
                         "U+FFFD) and rejected by the model's strict decoder; expected, not compared" % stricter)
+    rows = [o for o in rows if o["t"] != "big"]      # judged on the implementation alone
     if model_ok and rows:
         nshards = 16 if quick else 64
         size = max(1, (len(rows) + nshards - 1) // nshards)
